@@ -940,10 +940,15 @@ int vnacal_save(vnacal_t *vcp, const char *pathname)
 	goto error;
     }
     (void)yaml_emitter_delete(&emitter);
-    if (fclose(fp) == -1) {
-	_vnacal_error(vcp, VNAERR_SYSTEM, "fclose: %s: %s",
-		vcp->vc_filename, strerror(errno));
-	goto error;
+    {
+	int close_rc = fclose(fp);
+
+	fp = NULL;		/* closed (and freed) even on failure */
+	if (close_rc == -1) {
+	    _vnacal_error(vcp, VNAERR_SYSTEM, "fclose: %s: %s",
+		    vcp->vc_filename, strerror(errno));
+	    goto error;
+	}
     }
     return 0;
 
